@@ -24,7 +24,9 @@ R15.3 persistence: every key written by ``save`` is dispatched by ``_load``
       (and vice versa), values return to the attribute they were taken from,
       the header id and point index are parsed by the inverse expression,
       lines are split at the first '=' only, the float format keeps >= 17
-      significant digits.
+      significant digits; an identifier read from a file is replaced only
+      when the registry scan finds an instance that has it, and the
+      allocator ends above every identifier assigned (executed).
 """
 from __future__ import annotations
 
@@ -176,6 +178,13 @@ def ev(e, env):
         except (IndexError, KeyError, TypeError):
             raise _NoEval(txt(e))
     if isinstance(e, ast.Call):
+        if isinstance(e.func, ast.Name) and e.func.id in ("max", "min") \
+                and len(e.args) >= 2 and not e.keywords:
+            vals = [ev(a, env) for a in e.args]
+            try:
+                return max(vals) if e.func.id == "max" else min(vals)
+            except TypeError:
+                raise _NoEval(txt(e))
         if isinstance(e.func, ast.Name) and e.func.id in (
                 "bool", "int", "abs", "len", "str") and len(
                 e.args) == 1 and not e.keywords:
@@ -1341,6 +1350,33 @@ def _inversion(ctx, filt, call):
         return None
 
     idx = [i for i, s in enumerate(filt.body) if s is st][0]
+    # a return before the containment call by-passes the inversion
+    # decision: allowed only when the input is empty
+    tail = {id(n) for s_ in filt.body[idx + 1:] for n in walk(s_)}
+    params_ = params_of(filt)[1:]
+    bypass = None
+    for r in rets:
+        if id(r) in tail:
+            continue
+        guard = r.parent if isinstance(r.parent, ast.If) and any(
+            r is x for x in r.parent.body) else None
+        empty = guard is not None and re.fullmatch(
+            r"(not )?(len\((%s)\)|(%s)\.(size|shape\[0\]))"
+            r"( (==|<=|<) [01])?" % ("|".join(params_), "|".join(params_)),
+            txt(guard.test)) is not None
+        if not empty:
+            bypass = bypass or (r, guard)
+    ctx.ob("R15.2", bypass is None,
+           "no return by-passes the inversion decision (early returns only "
+           "for empty input)" if bypass is None else
+           f"`{short(bypass[0], 40)}`" + (
+               f" under `{short(bypass[1].test, 50)}`"
+               if bypass[1] is not None else "")
+           + " returns before the inversion decision: for an inverted "
+           "filter the complement is not formed on this path (e.g. all "
+           "events outside the bounding box are dropped instead of kept)",
+           node=bypass[0] if bypass else filt,
+           label="inversion not by-passed")
     got = {}
     notes = []
     for inverted in (False, True):
@@ -1790,6 +1826,8 @@ def r153(ctx, repo):
            f"section detection by a leading '{head_ch}' is ambiguous",
            node=hn, label="section head", nontrivial=False)
 
+    _unique_id_rule(ctx, repo)
+
     # ---- lines split at the first '=' only
     spl = [c for c in find_calls(load, attr="split")
            if c.args and const_str(c.args[0]) == "="]
@@ -1807,6 +1845,140 @@ def r153(ctx, repo):
            "'=' makes the whole file unloadable (ValueError: too many "
            "values to unpack)", node=(spl or parts_)[0],
            label="split at first '='")
+
+
+def _unique_id_rule(ctx, repo):
+    """an identifier read from a file is kept unless an existing instance
+    has it (decided by scanning the registry); the allocator ends above
+    every identifier in use"""
+    cls = repo.cls(POLY, "PolygonFilter")
+    methods = {f.name: f for f in cls.body if isinstance(f, ast.FunctionDef)}
+    # methods that (transitively) scan the registry of instances
+    scanners = set()
+    changed = True
+    while changed:
+        changed = False
+        for name, f in methods.items():
+            if name in scanners:
+                continue
+            direct = any(isinstance(n, (ast.For, ast.comprehension))
+                         and txt(n.iter).endswith(".instances")
+                         for n in walk(f)) or any(
+                isinstance(n, ast.Compare) and isinstance(
+                    n.ops[0], (ast.In, ast.NotIn)) and "instances" in txt(
+                    n.comparators[0]) for n in walk(f))
+            via = any(isinstance(c, ast.Call) and last_attr(c) in scanners
+                      for c in walk(f))
+            if direct or via:
+                scanners.add(name)
+                changed = True
+    su = methods.get("_set_unique_id")
+    if su is None:
+        raise AnalysisError("PolygonFilter._set_unique_id vanished")
+    su = inline_helpers(repo, POLY, su, keep=tuple(scanners))
+    par = params_of(su)
+    if len(par) != 2:
+        raise AnalysisError("_set_unique_id: parameters")
+    UID = par[1]
+    # the branch that replaces the requested id
+    repl = [n for n in su.body if isinstance(n, ast.If) and any(
+        isinstance(x, ast.Assign) and txt(x.targets[0]) == UID
+        for x in walk(n))]
+    if len(repl) != 1 or repl[0].orelse:
+        raise AnalysisError("_set_unique_id: branch that replaces the "
+                            "identifier not found")
+    test = repl[0].test
+    uses_scan = any(
+        isinstance(c, ast.Call) and last_attr(c) in scanners
+        and UID in names_in(c) for c in ast.walk(test)) or (
+        "instances" in txt(test) and UID in names_in(test))
+    pol = not (isinstance(test, ast.UnaryOp) and isinstance(
+        test.op, ast.Not))
+    ctx.ob("R15.3", bool(uses_scan and pol),
+           "a requested identifier is replaced only when the registry scan "
+           "finds an instance that has it" if uses_scan and pol else
+           f"the requested identifier is replaced under "
+           f"`{short(test, 50)}`, which does not ask the registry of "
+           "instances: a free identifier read from a .poly file is not "
+           "kept (e.g. ids 2, 0, 1 come back as 2, 3, 4)", node=test,
+           label="id kept unless taken")
+    # execute the allocator for taken / free
+    diag = set()
+    for c in find_calls(su, name="warnings.warn"):
+        diag |= names_in(c)
+    diag -= {UID}
+    body = []
+    for st in su.body:
+        if isinstance(st, ast.Assert) or (isinstance(st, ast.Expr) and (
+                isinstance(st.value, ast.Constant) or _is_diagnostic(
+                    st.value))):
+            continue
+        body.append(st)
+
+    def strip(stmts):
+        out = []
+        for st in stmts:
+            if isinstance(st, (ast.Assign, ast.AugAssign)) and txt(
+                    st.targets[0] if isinstance(st, ast.Assign)
+                    else st.target) in diag:
+                continue
+            if isinstance(st, ast.Expr) and isinstance(
+                    st.value, ast.Call) and _is_diagnostic(st.value):
+                continue
+            if isinstance(st, ast.If):
+                st2 = ast.If(test=st.test, body=strip(st.body) or [
+                    ast.Pass()], orelse=strip(st.orelse))
+                out.append(st2)
+            else:
+                out.append(st)
+        return out
+    body = strip(body)
+    CNT = "PolygonFilter._instance_counter"
+    bad = None
+    for taken in (False, True):
+        for counter, uid in ((0, 0), (3, 1), (3, 3), (3, 7)):
+            env = {CNT: counter, UID: uid, "__taken__": taken}
+            stmts = []
+            for st in body:
+                if st is not None and isinstance(st, ast.If) and txt(
+                        st.test) == txt(test):
+                    st = ast.If(test=ast.Name(id="__taken__",
+                                              ctx=ast.Load()),
+                                body=st.body, orelse=st.orelse)
+                stmts.append(st)
+            try:
+                _exec(stmts, env)
+            except _NoEval as e:
+                raise AnalysisError(f"_set_unique_id: {e}")
+            got = env.get("self.unique_id")
+            c2 = env.get(CNT)
+            if got is None or c2 is None:
+                raise AnalysisError("_set_unique_id: result not stored")
+            if not taken and got != uid:
+                bad = bad or (f"a free identifier {uid} is stored as {got}")
+            if taken and (got == uid or got < counter):
+                bad = bad or (f"a taken identifier {uid} (counter {counter})"
+                              f" is replaced by {got}, which may be in use")
+            if c2 <= got or c2 < counter:
+                bad = bad or (f"after assigning {got} the allocator stands "
+                              f"at {c2}: the next automatic identifier "
+                              "collides")
+    ctx.ob("R15.3", bad is None,
+           "executed for free and taken identifiers: a free id is kept, a "
+           "taken one replaced by an unused one, the allocator ends above "
+           "the id assigned" if bad is None else bad, node=su,
+           label="id allocation")
+    # _load hands the id of the header to _set_unique_id
+    load = methods["_load"]
+    calls = [c for c in find_calls(load, attr="_set_unique_id")]
+    ok = len(calls) == 1 and len(calls[0].args) == 1 and any(
+        isinstance(n, ast.Assign) and txt(n.targets[0]) == txt(
+            calls[0].args[0]) and call_name(n.value) == "int"
+        for n in walk(load))
+    ctx.ob("R15.3", ok, "_load passes the identifier parsed from the header "
+           "to _set_unique_id" if ok else "_load no longer registers the "
+           "identifier parsed from the header", node=load,
+           label="loaded id registered", nontrivial=False)
 
 
 def _anc_calls(node):
@@ -1849,10 +2021,10 @@ def run(ctx):
     ctx.rule("R15.2", "x/y columns and counts reach the compiled routine "
              "consistently through every wrapper in a float64 buffer; "
              "inversion iff self.inverted (filter and copy); vertices read "
-             "through the normalising property", minimum=21)
+             "through the normalising property", minimum=22)
     ctx.rule("R15.3", "save/_load agree on keys, attribute mapping, header "
              "and index parsing, first-'=' split; >= 17 significant digits",
-             minimum=25)
+             minimum=28)
     r151(ctx, repo)
     r152(ctx, repo)
     r153(ctx, repo)
@@ -1961,6 +2133,26 @@ MUTANTS = [
     ("filter evaluates the raw vertex field", POLY,
      ("f = points_in_poly(points=points, verts=self.points)",
       "f = points_in_poly(points=points, verts=self._points)"), "R15.2"),
+    ("bounding-box fast path returns before the inversion (seeded C15_9)",
+     POLY,
+     ("        f = points_in_poly(points=points, verts=self.points)\n",
+      "        pmin = np.min(self.points, axis=0)\n"
+      "        pmax = np.max(self.points, axis=0)\n"
+      "        if not np.any(np.all((points >= pmin) & (points <= pmax),\n"
+      "                             axis=1)):\n"
+      "            return np.zeros(datax.shape[0], dtype=bool)\n"
+      "        f = points_in_poly(points=points, verts=self.points)\n"),
+     "R15.2"),
+    ("identifier taken decided by the counter (seeded C15_7)", POLY,
+     ("        if PolygonFilter.instace_exists(unique_id):",
+      "        if unique_id < PolygonFilter._instance_counter:"), "R15.3"),
+    ("allocator not advanced past the assigned identifier", POLY,
+     ("        ic = max(PolygonFilter._instance_counter, unique_id+1)",
+      "        ic = max(PolygonFilter._instance_counter, unique_id)"),
+     "R15.3"),
+    ("replacement identifier may be in use", POLY,
+     ("            newid = max(PolygonFilter._instance_counter, "
+      "unique_id+1)", "            newid = unique_id + 1"), "R15.3"),
     ("inversion result discarded", POLY,
      ("            np.invert(f, f)\n", "            np.invert(f)\n"),
      "R15.2"),
@@ -2055,6 +2247,14 @@ TWINS = [
       "            axes=self.axes, points=self.points, name=self.name,\n"
       "            inverted=(not self.inverted) if invert else "
       "self.inverted)")),
+    ("early return for empty input", POLY,
+     ("        points = np.zeros((datax.shape[0], 2), dtype=np.float64)\n",
+      "        if datax.size == 0:\n"
+      "            return np.zeros(0, dtype=bool)\n"
+      "        points = np.zeros((datax.shape[0], 2), dtype=np.float64)\n")),
+    ("identifier looked up with the other registry scan", POLY,
+     ("        if PolygonFilter.instace_exists(unique_id):",
+      "        if PolygonFilter.unique_id_exists(unique_id):")),
     ("filter returns the complement by expression", POLY,
      ("            np.invert(f, f)\n", "            f = ~f\n")),
     ("save with f-strings", POLY,
